@@ -514,7 +514,7 @@ pub fn worker(cfg: &WorkerCfg, emit: &mut dyn FnMut(Violation)) -> Stats {
                         emit(v);
                     }
                     place_faults(&mut sc, &prof, &mut r);
-                    prof_digest = Some(prof.state.trace.iter().map(event_line).collect::<Vec<_>>());
+                    prof_digest = Some(canon_event_lines(&prof.state.trace));
                 }
                 Err(e) => {
                     stats.harness_errors.push(e);
@@ -559,7 +559,7 @@ pub fn worker(cfg: &WorkerCfg, emit: &mut dyn FnMut(Violation)) -> Stats {
         }
         // determinism: up to the first fired rule the faulted trace equals the profile's
         if let Some(pl) = &prof_digest {
-            let fl: Vec<String> = out.state.trace.iter().map(event_line).collect();
+            let fl: Vec<String> = canon_event_lines(&out.state.trace);
             let first_fired = out.state.trace.iter().position(|e| e.rule != -1 || e.errno != 0 || (e.call == Call::Write && e.ret != e.req.min(if sc.write_cap > 0 { sc.write_cap as i64 } else { i64::MAX }))).unwrap_or(fl.len());
             let n = first_fired.min(pl.len()).min(fl.len());
             if pl[..n] != fl[..n] {
